@@ -53,6 +53,12 @@ def run(ctx: Ctx, env):
     ci = repo.classes[DJ]
     dm = ci.module
 
+    # ---- (0) the front of the pipeline the shorthand runs: literal values as written, parse -> visit -> filter ----------
+    from .c06 import check_token_actions
+    from .c15 import _check_chain
+    check_token_actions(ctx, env, "R0.literal-values-as-written")
+    _check_chain(ctx, env, "django.apply_odata_query", "odata_query.django.shorthand", "apply_odata_query", "AstToDjangoQVisitor")
+
     # ---- (1) operator constructs ---------------------------------------------------------------------------------
     n_ops = 0
     for cls, allowed in OP_CONSTRUCT.items():
